@@ -389,17 +389,24 @@ def check_scales(case):
             if no_ > 1e-4 * zs:  # correlation of an (almost) constant output column is round-off noise
                 corr = float(sc @ oc) / no_
                 _need(abs(corr) <= 1e-6, f"output column {k} keeps correlation {corr!r} with sensitive column {j} (column scales {fac.tolist()})")
-    return ["nt", "scale_ratio>=1e6"] if max(fac) / min(fac) >= 1e6 else ["nt"]
+    tags = ["nt", "scale_ratio>=1e6"] if max(fac) / min(fac) >= 1e6 else ["nt"]
+    if ns == 1 and (fac[0] > 1e150 or fac[0] < 1e-150):
+        tags.append("single_column_extreme_units")
+    return tags
 
 
 @st.composite
 def _scale_cases(draw):
     n = draw(st.integers(5, 12))
-    ns = draw(st.integers(2, 3))
+    ns = draw(st.sampled_from([1, 2, 2, 3, 3]))
     no = draw(st.integers(1, 3))
     col = lambda: draw(st.lists(st.integers(-5, 9), min_size=n, max_size=n))  # noqa: E731
-    return {"S": [col() for _ in range(ns)], "Z": [col() for _ in range(no)],
-            "factors": [draw(st.sampled_from([1.0, 1.0, 1e-4, 1e4, 1e3, 100.0])) for _ in range(ns)]}
+    if ns == 1:
+        # a single sensitive column in units that make it astronomically large or small (its square over- / underflows)
+        factors = [draw(st.sampled_from([1e160, 1e-165, 1e155, 1e-170, 1e100, 1.0]))]
+    else:
+        factors = [draw(st.sampled_from([1.0, 1.0, 1e-4, 1e4, 1e3, 100.0])) for _ in range(ns)]
+    return {"S": [col() for _ in range(ns)], "Z": [col() for _ in range(no)], "factors": factors}
 
 
 # ---- finding D15: centring round-off above numpy.lstsq's default cutoff ---------------------------------
